@@ -243,6 +243,10 @@ def r_eq_len(F, V):
         scan = [i for i, t in b.calls() if t["f"].get("method") in ("all", "any", "fold", "try_fold") or (callee_path(t) or "").endswith("::all")]
         problems = []
         loop_scan = None
+        subset_scan = [i for i, t in b.calls() if (callee_path(t) or "").endswith("HashSet::is_subset") and len(t["args"]) >= 2
+                       and _arg_root(b, t, 0)[0] == 1 and _arg_root(b, t, 1)[0] == 2]
+        if not scan and subset_scan:
+            scan = subset_scan      # `self.len() == other.len() && self.is_subset(other)`: is_subset is the element scan
         if not scan:
             # the scan written as an explicit loop: `for x in self.iter() { if !member(x) { return false } } true`
             for h, blocks in b.natural_loops():
@@ -256,6 +260,7 @@ def r_eq_len(F, V):
                 scan = [loop_scan[0]]
         for sc in scan:
             ok = False
+            weaker = []
             for (bb, s, S) in controlling_sources(b, sc):
                 lens = [c for c in S.calls if c.endswith("::len")]
                 if lens and ("Ne" in S.binops or "Eq" in S.binops):
@@ -267,7 +272,10 @@ def r_eq_len(F, V):
                     if roots >= {1, 2}:
                         ok = True
                 elif lens:
-                    problems.append("the lengths are compared with %s instead of == / !=: a strict sub-map compares equal in one direction (== is not symmetric)" % sorted(S.binops))
+                    weaker.append(sorted(S.binops))
+            if not ok and weaker:
+                # (a `<=` test next to the `==` one - e.g. inside a shared "is every entry of a in b" helper - is implied by it)
+                problems.append("the lengths are compared with %s instead of == / !=: a strict sub-map compares equal in one direction (== is not symmetric)" % weaker[0])
             if not ok and not problems:
                 problems.append("the element scan is not guarded by equality of the two len() values")
         # membership through other's own lookup
@@ -287,7 +295,7 @@ def r_eq_len(F, V):
                         ops_ = st_["rv"]["ops"]
                         if idx_ and int(idx_[0]) < len(ops_) and ops_[int(idx_[0])]["k"] in ("copy", "move"):
                             recv = deep_root(b, ops_[int(idx_[0])]["p"])[0]
-                    if recv == 1:
+                    if recv == 1 and not (cb is b and i in subset_scan):
                         wrong_recv = True
         if wrong_recv:
             problems.append("membership is tested in `self` instead of in `other` (self.%s of an element of self is always true): any two collections of the same length compare equal" % look[0].split("::")[-1])
@@ -343,6 +351,28 @@ def r_eq_len(F, V):
             continue
         n += 1
         pr = _map_or_default_problems(F, V, pb)
+        # ... and only maps of equal length can be equal: the parallel scan (`all`) is guarded by `self.len() == other.len()`
+        scans = [i for i, t in pb.calls() if t["f"]["k"] == "fn" and (t["f"].get("method") in ("all", "any") or (callee_path(t) or "").endswith("ParallelIterator::all"))]
+        len_ok = False
+        len_bad = None
+        for sc in scans:
+            for (bb, s_, S) in controlling_sources(pb, sc):
+                lens = [c for c in S.calls if c.endswith("::len")]
+                if lens and ({"Eq", "Ne"} & S.binops):
+                    len_ok = True
+                elif lens:
+                    len_bad = sorted(S.binops)
+        # `a.len() == b.len() && scan`: the comparison may also be a conjunct of the result instead of a branch
+        for i, k, st in pb.stmts():
+            if st["k"] == "assign" and st["rv"]["k"] == "binop" and st["rv"]["op"] in ("Eq", "Ne"):
+                Sx = sources(pb, st["rv"]["a"])
+                Sy = sources(pb, st["rv"]["b"])
+                if any(c.endswith("::len") for c in Sx.calls) and any(c.endswith("::len") for c in Sy.calls):
+                    len_ok = True
+        if scans and len_bad and not len_ok:
+            pr.append("the lengths are compared with %s instead of ==: a strict sub-map is reported equal to its super-map (par_eq is not symmetric and disagrees with ==)" % len_bad)
+        elif scans and not len_ok:
+            pr.append("the parallel element scan is not guarded by equality of the two len() values: a strict sub-map is reported equal to its super-map")
         if pr:
             R.violation(pp_ + "|missing-key", pb, "; ".join(sorted(set(pr))))
             R.inst(pp_ + "|missing-key", "; ".join(sorted(set(pr))), "violation", True, where(pb))
@@ -489,17 +519,24 @@ def r_keep_key(F, V):
     b = F.bodies.get("set::HashSet::replace")
     if b is not None:
         n += 1
-        repl = [(i, t) for i, t in b.calls() if (callee_path(t) or "") == "core::mem::replace"]
+        repl = [(i, t, b) for i, t in b.calls() if (callee_path(t) or "") == "core::mem::replace"]
+        for st_, cb_ in _closure_bodies(F, V, b):
+            repl += [(i, t, cb_) for i, t in cb_.calls() if (callee_path(t) or "") == "core::mem::replace"]
         ok = False
-        for i, t in repl:
+        for i, t, b_ in repl:
             tail = []
-            for x in _arg_root(b, t, 0)[1]:
+            for x in _arg_root(b_, t, 0)[1]:
                 if x.startswith("."):
                     tail = []
                 elif x not in ("*", "&"):
                     tail.append(x)
             if tail == ["0"]:
                 ok = True
+            # ... or over the whole stored pair `(T, ())` (through the found bucket), which for a set is the element itself
+            if tail == [] and any(x.startswith(".as_mut") or x.startswith(".as_ptr") for x in _arg_root(b_, t, 0)[1]):
+                S1 = sources(b_, t["args"][1]) if len(t["args"]) > 1 else None
+                if S1 is not None and (S1.args - {1}):
+                    ok = True
         if ok:
             R.inst("set::HashSet::replace|stores-new", "replace stores the new value into the slot (.0) and returns the old one", "ok", True, where(b))
         else:
@@ -614,7 +651,8 @@ def r_hash_source(F, V):
     RAW_OPS = ("raw::RawTable::find", "raw::RawTable::get", "raw::RawTable::get_mut", "raw::RawTable::find_or_find_insert_slot", "raw::RawTable::remove_entry",
                "raw::RawTable::insert", "raw::RawTable::insert_entry", "raw::RawTable::insert_in_slot", "raw::RawTable::insert_no_grow")
     for p, body in F.bodies.items():
-        if not (p.startswith("map::HashMap::") or p.startswith("set::HashSet::") or p.startswith("rustc_entry::HashMap::") or p.startswith("raw_entry::RawEntryBuilder") or p.startswith("map::VacantEntry") or p.startswith("map::VacantEntryRef")):
+        if not (p.startswith("map::HashMap::") or p.startswith("set::HashSet::") or p.startswith("rustc_entry::HashMap::") or p.startswith("raw_entry::RawEntryBuilder") or p.startswith("map::VacantEntry") or p.startswith("map::VacantEntryRef")
+                or p.startswith("raw_entry::RawVacantEntryMut::") or p.startswith("raw_entry::RawEntryMut::")):
             continue
         if "hashed_nocheck" in p or "from_hash" in p or "with_hasher" in p or "::{closure" in p or body.unsafe:
             continue
@@ -622,7 +660,7 @@ def r_hash_source(F, V):
             continue  # takes the hash by contract
         for i, t in body.calls():
             cp = callee_path(t) or ""
-            if cp not in RAW_OPS and not cp.endswith("HashMap::find_or_find_insert_slot"):
+            if cp not in RAW_OPS and not cp.endswith("HashMap::find_or_find_insert_slot") and not (p.startswith("raw_entry::") and cp in ("raw_entry::RawVacantEntryMut::insert_hashed_nocheck", "raw_entry::RawVacantEntryMut::insert_entry")):
                 continue
             hq = None
             cb = F.bodies.get(cp)
@@ -637,8 +675,14 @@ def r_hash_source(F, V):
             key = "%s|hash->%s" % (p, cp.split("::")[-1])
             S = sources(body, t["args"][hq])
             mh = [c for c in S.calls if c.endswith("make_hash") or c.endswith("make_hasher")]
-            if not mh and S.has_load("hash") and S.args == {1}:
+            if not mh and S.has_load("hash") and S.args == {1} and not p.startswith("raw_entry::"):
                 R.inst(key, "hash carried in the entry's `hash` field (its construction is checked separately)", "ok", False, where(body, bb=i))
+                continue
+            if not mh and p.startswith("raw_entry::"):
+                # a raw vacant entry may have been found with ANY hash (from_hash / from_key_hashed_nocheck): a hash it carries says
+                # nothing about the key that is inserted now
+                R.violation(key, body, "a raw vacant entry files the inserted key under a hash that is not make_hash(hash_builder, &key) of that key (e.g. the hash the entry was looked up with): later lookups by key do not find the element", line=line_of(body, bb=i))
+                R.inst(key, "inserted key not hashed", "violation", True, where(body, bb=i))
                 continue
             if not mh:
                 R.violation(key, body, "the hash passed to %s is not make_hash(&self.hash_builder, key): lookups/inserts would use a hash unrelated to the map's hasher" % cp, line=line_of(body, bb=i))
